@@ -800,6 +800,8 @@ class AdvancedTag(object):
         if isChildTag:
             self.children = myChildren[:childrenIdx] + [child] + myChildren[childrenIdx:]
 
+        self._linkInsertedBlock(child, isChildTag)
+
         return child
 
     def insertAfter(self, child, afterChild):
@@ -836,7 +838,36 @@ class AdvancedTag(object):
         if isChildTag:
             self.children = myChildren[:childrenIdx+1] + [child] + myChildren[childrenIdx+1:]
 
+        self._linkInsertedBlock(child, isChildTag)
+
         return child
+
+
+    def _linkInsertedBlock(self, child, isChildTag):
+        '''
+            _linkInsertedBlock - Internal. Performs the same accounting as appendChild / appendText
+              for a block which insertBefore / insertAfter just placed into self.blocks
+
+                @param child <AdvancedTag/str> - The inserted block
+
+                @param isChildTag <bool> - True if #child is an AdvancedTag, False if text
+        '''
+        if isChildTag:
+            # Associate parentNode of #child to this tag
+            child.parentNode = self
+
+            # Associate owner document to child and all children recursive
+            ownerDocument = self.ownerDocument
+
+            child.ownerDocument = ownerDocument
+            for subChild in child.getAllChildNodes():
+                subChild.ownerDocument = ownerDocument
+        else:
+            # Regenerate the "text" property
+            self.text = ''.join([thisBlock for thisBlock in self.blocks if not issubclass(thisBlock.__class__, AdvancedTag)])
+
+        # Our tag cannot be self-closing if we have inner text or a child tag
+        self.isSelfClosing = False
 
 
     # Maybe we want to do a more full implementation of the Node stuff.... but I don't think anyone really
